@@ -32,7 +32,10 @@ func (zzCtx) InspectServerBlocks(f string, b []casketfile.ServerBlock) ([]casket
 }
 func (zzCtx) MakeServers() ([]Server, error) { return nil, nil }
 
-var zzDirs = []string{"alpha", "beta", "gamma"}
+// the server type's canonical order (deliberately not alphabetical) and a private copy of it that
+// the oracle uses: the live list is what casket hands to the parser and iterates on every load
+var zzDirs = []string{"gamma", "alpha", "beta"}
+var zzDocumented = []string{"gamma", "alpha", "beta"}
 
 func zzRegister() {
 	if _, err := getServerType("zzverif"); err == nil {
@@ -64,14 +67,25 @@ func VerifH09aExecutionOrder() {
 		var ls []line
 		text += []string{"siteA", "siteB"}[b] + " {\n"
 		for i := 0; i < k; i++ {
-			l := line{dir: verifrt.Choose("dir", len(zzDirs)), arg: []string{"x", "y", "z"}[i]}
+			l := line{dir: verifrt.Choose("dir", len(zzDocumented)), arg: []string{"x", "y", "z"}[i]}
 			ls = append(ls, l)
-			text += "\t" + zzDirs[l.dir] + " " + l.arg + "\n"
+			text += "\t" + zzDocumented[l.dir] + " " + l.arg + "\n"
 		}
 		text += "}\n"
 		blocks = append(blocks, ls)
 	}
-	sblocks, err := casketfile.Parse("Casketfile", strings.NewReader(text), zzDirs)
+	// optionally a rejected load came first in this process (unknown directive, or a syntax error)
+	switch verifrt.Choose("rejected-load-first", 3) {
+	case 1:
+		if _, err := casketfile.Parse("Casketfile", strings.NewReader("siteA {\n\tgamm x\n}\n"), ValidDirectives("zzverif")); err == nil {
+			verifrt.Fail("unknown-directive-rejected")
+		}
+	case 2:
+		if _, err := casketfile.Parse("Casketfile", strings.NewReader("siteA {\n\tbeta x\n"), ValidDirectives("zzverif")); err == nil {
+			verifrt.Fail("unterminated-block-rejected")
+		}
+	}
+	sblocks, err := casketfile.Parse("Casketfile", strings.NewReader(text), ValidDirectives("zzverif"))
 	if err != nil {
 		verifrt.Fail("parse")
 		return
@@ -79,23 +93,23 @@ func VerifH09aExecutionOrder() {
 	zzTrace = nil
 	inst := &Instance{serverType: "zzverif", wg: new(sync.WaitGroup), Storage: make(map[interface{}]interface{})}
 	inst.context = zzCtx{}
-	if err := executeDirectives(inst, "Casketfile", zzDirs, sblocks, false); err != nil {
+	if err := executeDirectives(inst, "Casketfile", ValidDirectives("zzverif"), sblocks, false); err != nil {
 		verifrt.Fail("execute")
 		return
 	}
 	// the statement: for each directive in the fixed order, for each block in order, one setup
 	// call that sees that directive's lines in written order
 	var want []string
-	for d := range zzDirs {
+	for d := range zzDocumented {
 		for b, ls := range blocks {
 			var toks []string
 			for _, l := range ls {
 				if l.dir == d {
-					toks = append(toks, zzDirs[d], l.arg)
+					toks = append(toks, zzDocumented[d], l.arg)
 				}
 			}
 			if len(toks) > 0 {
-				want = append(want, []string{"siteA", "siteB"}[b]+"|"+zzDirs[d]+"|"+strings.Join(toks, " "))
+				want = append(want, []string{"siteA", "siteB"}[b]+"|"+zzDocumented[d]+"|"+strings.Join(toks, " "))
 			}
 		}
 	}
